@@ -280,6 +280,16 @@ Definition w_no_transitions : tree :=
       TNode KState 1 None [] [[(ILog 101 (INum (1)%Z))]] [] []
         []].
 
+(* cond-top-level-or: cond="Var1 < 0 || 0 < Var2" on a transition for event e: event g takes it, because the cond is written into the && chain without parentheses *)
+Definition w_cond_top_level_or : tree :=
+  TNode KScxml 0 None [] [] [] [(1, (INum (0)%Z)); (2, (INum (1)%Z))]
+    [
+      TNode KState 1 None [{| tt_vid := 101; tt_event := Some [101]; tt_cond := Some (BOr (BLt (IVar 1) (INum (0)%Z)) (BLt (INum (0)%Z) (IVar 2))); tt_targets := Some [2]; tt_internal := false; tt_body := [] |}] [[(IRaise 102 [103])]] [] []
+        [];
+
+      TNode KState 2 None [] [] [] []
+        []].
+
 (* targetless: target-less transition *)
 Definition w_targetless : tree :=
   TNode KScxml 0 None [] [] [] []
@@ -360,6 +370,9 @@ Lemma star_in_descriptor_list_refuted : exists t fp ff, ~ behaviour_preserved pm
 Proof. exists w_star_in_descriptor_list, 20, 40. refute. Qed.
 Lemma history_below_deep_history_refuted : exists t fp ff, ~ behaviour_preserved pml_as_written t 7 13 fp ff.
 Proof. exists w_history_below_deep_history, 30, 60. refute. Qed.
+(* a condition with `||` at top level and no outer parentheses enables the transition for any event *)
+Lemma cond_top_level_or_refuted : exists t fp ff, ~ behaviour_preserved pml_as_written t 7 13 fp ff.
+Proof. exists w_cond_top_level_or, 20, 40. refute. Qed.
 (* a document without transitions: the model never comes to rest, the interpreter goes idle after the initial step *)
 Lemma no_transitions_refuted : exists t fp ff, ~ behaviour_prefix pml_as_written t 7 13 fp ff.
 Proof.
@@ -371,7 +384,7 @@ Qed.
 Definition with_switch_off (k : nat) : pml_variant :=
   {| pv_in_reads_root := negb (k =? 0); pv_initial_break := negb (k =? 1); pv_deep_unnegated := negb (k =? 2);
      pv_hist_parent_test := negb (k =? 3); pv_hist_or := negb (k =? 4);
-     pv_hist_covered := negb (k =? 6); pv_hist_inner_first := false; pv_found_stale := negb (k =? 7);
+     pv_hist_covered := negb (k =? 6); pv_hist_inner_first := false; pv_found_stale := negb (k =? 7); pv_cond_bare := negb (k =? 9);
      pv_trie := {| tv_star_in_list_ignored := negb (k =? 5) |} |}.
 
 Ltac holds := unfold behaviour_preserved; vm_compute; intros _ _; reflexivity.
@@ -383,7 +396,8 @@ Lemma witnesses_repaired_by_their_switch :
   behaviour_preserved (with_switch_off 4) w_shallow_history_nested 7 13 30 60 /\
   behaviour_preserved (with_switch_off 5) w_star_in_descriptor_list 7 13 20 40 /\
   behaviour_preserved (with_switch_off 6) w_history_below_deep_history 7 13 30 60 /\
-  behaviour_preserved (with_switch_off 7) w_no_transitions 7 13 20 40.
+  behaviour_preserved (with_switch_off 7) w_no_transitions 7 13 20 40 /\
+  behaviour_preserved (with_switch_off 9) w_cond_top_level_or 7 13 20 40.
 Proof. repeat split; holds. Qed.
 
 (* the statement is not vacuous: charts on which the template as written already agrees, observed completely *)
@@ -470,6 +484,7 @@ Variable cfg : list nat.
 Variable evf : option event.
 Variable x : xstate.
 Hypothesis Hin : pv_in_reads_root pv = false.
+Hypothesis Hbare : pv_cond_bare pv = false.
 Hypothesis Hconf : forall i j, i < ntrans c -> j < ntrans c ->
   conflict_static c (tr c i) (tr c j) = fconflicts c (tr c i) (tr c j).
 Hypothesis Hmatch : forall i e, i < ntrans c -> evf = Some e -> ft_spontaneous (tr c i) = false ->
@@ -498,7 +513,7 @@ Proof.
   - exists a. cbn. rewrite It. repeat split. now rewrite If.
   - cbn [seq fold_left fselect].
     assert (Lk : k < ntrans c) by lia.
-    unfold psel_one at 2.
+    unfold psel_one at 2. unfold guard_value. rewrite Hbare.
     destruct (ft_history (tr c k) || ft_initial (tr c k)) eqn:HI.
     { apply IH; [lia|]. repeat split; auto. intros s Hs. specialize (Ilt s Hs). lia. }
     destruct (mem (ft_source (tr c k)) cfg) eqn:Src; cbn [negb andb].
